@@ -398,6 +398,13 @@ def feq(a, b, tol=1e-9):
     return abs(a - b) <= tol * (1 + abs(a) + abs(b))
 
 
+def req(a, b, tol=1e-9):
+    """radii: +inf and -inf are the same flat surface (curvature 0)"""
+    if isinstance(a, float) and isinstance(b, float) and math.isinf(a) and math.isinf(b):
+        return True
+    return feq(a, b, tol)
+
+
 def media_chain(o):
     """None, or the first k where the medium behind k is not the medium in front of k+1"""
     ss = o.surface_group.surfaces
@@ -542,7 +549,7 @@ def check_history(hist, stop_at_first=True):
                 if key[0] == 'c' and key[2] < 0:       # Python's negative index into the coefficient list
                     key = ('c', key[1], key[2] + sum(1 for kk in before if kk[0] == 'c' and kk[1] == key[1]))
                 after = quantities(o)
-                if not feq(after.get(key, float('nan')), val, 1e-9):
+                if not (req if key[0] == 'R' else feq)(after.get(key, float('nan')), val, 1e-9):
                     V('edit-readback', key=list(key), got=after.get(key), expected=val)
                 else:
                     for kk in after:
@@ -565,7 +572,7 @@ def check_history(hist, stop_at_first=True):
                     V('mirror-media', surface=mm)
             elif t == 'pickup' and not structural:
                 _, src, a, tgt, sc, off = op
-                if not feq(pickup_value(o, a, tgt), sc * pickup_value(o, a, src) + off, 1e-9):
+                if not (req if a == 'radius' else feq)(pickup_value(o, a, tgt), sc * pickup_value(o, a, src) + off, 1e-9):
                     V('pickup-unsatisfied', pickup=op[1:], stage='add', got=pickup_value(o, a, tgt),
                       expected=sc * pickup_value(o, a, src) + off, dependency=(a != 'thickness' and False))
             elif t == 'solve' and not structural:
@@ -580,7 +587,7 @@ def check_history(hist, stop_at_first=True):
                        for p in o.pickups.pickups]
                 svs = [[s.surface_idx, s.height] for s in o.solves.solves]
                 for pi, (src, a, tgt, sc, off) in enumerate(pks):
-                    if not feq(pickup_value(o, a, tgt), sc * pickup_value(o, a, src) + off, 1e-9):
+                    if not (req if a == 'radius' else feq)(pickup_value(o, a, tgt), sc * pickup_value(o, a, src) + off, 1e-9):
                         V('pickup-unsatisfied', pickup=pks[pi], stage='update', got=pickup_value(o, a, tgt),
                           expected=sc * pickup_value(o, a, src) + off,
                           dependency=pickup_dependency(pi, pks, svs, o), pickups=pks, solves=svs)
